@@ -14,8 +14,9 @@
   pairing, `evm.Transfer` being executed by CALL even for a zero value, the
   platform's TopicRunFail / TopicContractCreation events, the readOnly flag
   set by StaticCall and cleared by the frame that set it, precompiles (incl.
-  the state-writing reward precompile, which the interpreter's readOnly flag
-  does not protect).
+  the state-writing reward precompile, which `RunPrecompiledContract` refuses
+  under readOnly since fix a881098; `Params.guardPre = false` is the code
+  before that fix, where the interpreter's readOnly flag did not protect it).
 
   What is abstract: which opcode comes next, the stack height, the dynamic
   part of the gas (`extra`), memory-size overflow, execution errors, how many
@@ -62,6 +63,11 @@ structure Params where
   opCallCode : Nat
   opDelegateCall : Nat
   opStaticCall : Nat
+  /-- addresses of the precompiles the code declares state-modifying (`precompileWritesState`) -/
+  writingPre : List Nat
+  /-- `RunPrecompiledContract` refuses a state-modifying precompile under readOnly
+      (`true` = current code; `false` = code before fix a881098) -/
+  guardPre : Bool
   deriving DecidableEq, Repr
 
 structure Table where
@@ -94,7 +100,7 @@ inductive Callee where
   | none                     -- not a call
   | empty                    -- no code, not a precompile
   | code                     -- non-empty code: a new interpreter frame
-  | pre (req : Nat) (ok : Bool) (writes : Nat)  -- precompile: RequiredGas, Run succeeded, journal pushes
+  | pre (addr req : Nat) (ok : Bool) (writes : Nat)  -- precompile: address, RequiredGas, Run succeeded, journal pushes
   | loadFail                 -- GetCode failed
   | collision                -- CREATE: target account not empty
   deriving DecidableEq, Repr
@@ -197,9 +203,14 @@ def newFrame (m : Machine) (k : Kind) (gas : Nat) : Frame :=
 def runCallee (P : Params) (m' : Machine) (f : Frame) (parents : List Frame) (gas : Nat) (callee : Callee) : Machine :=
   match callee with
   | .code => { m' with frames := f :: parents }
-  | .pre req ok w =>
-    if gas < req then finishFrame P m' f parents .failed 0 0                    -- ErrOutOfGas
-    else if ok then finishFrame P { m' with journal := m'.journal ++ List.replicate w .write } f parents .ok (gas - req) 0
+  | .pre addr req ok w =>
+    if P.guardPre = true ∧ m'.readOnly = true ∧ addr ∈ P.writingPre then
+      finishFrame P m' f parents .failed 0 0                                    -- errWriteProtection
+    else if gas < req then finishFrame P m' f parents .failed 0 0               -- ErrOutOfGas
+    else if ok then
+      -- only a precompile declared state-modifying pushes journal entries
+      finishFrame P { m' with journal := m'.journal ++ List.replicate (if addr ∈ P.writingPre then w else 0) .write }
+        f parents .ok (gas - req) 0
     else finishFrame P m' f parents .failed (gas - req) 0
   | _ => finishFrame P m' f parents .ok gas 0                                   -- no code: Run returns at once
 
